@@ -24,6 +24,7 @@ import Driver.NodeSync
 import Driver.NodeReorg
 import Driver.ConsensusStore
 import Driver.Downloader
+import Driver.Fetcher
 import Driver.Frame
 import Driver.LedgerNode
 import Driver.VdbCache
@@ -69,6 +70,7 @@ def registry : List Obj := [
   pureObj pureConsStore,
   mkObj ({} : CsDbSt) csDbStep,
   mkObj ([] : DlBuf) dlStep,
+  mkObj ({} : FeSt) feStep,
   pureObj pureFrame,
   mkObj ({} : PmSt) pmStep,
   ledgerNodeObj,
